@@ -22,10 +22,18 @@ RULE = (
     "(b) irregular coordinate sets: 3 menus (generic, repeated points, axis/collinear/centre points) x every prefix "
     "length 1..6 x profile (centre, angle) menu; (c) every 1D mask of length 1..Lmax x 3 pixel scales x 2 origins x "
     "{uniform, arbitrary} coordinates; (d) radial-minimum rings: 3 configured minima x 3 direction sets x 2 orders x "
-    "3 containers x profile menu, radii {1e-3, 0.5, 1-1e-6, 1+1e-6, 2, 100} x minimum. Per case every decorator "
+    "3 containers x profile menu, radii {1e-3, 0.5, 1-1e-6, 1+1e-6, 2, 100} x minimum; (d') INTEGER-dtype coordinates "
+    "(int64 ndarray / Grid2DIrregular / Grid2D, which all keep the dtype): 3 minima x 2 integer menus (points at r = 1, "
+    "sqrt2, 2, sqrt5 inside and r >= sqrt8 outside the 2.5 minimum, the centre, repeats) x 2 orders x 3 containers through "
+    "relocate, to_array/to_grid/to_vector_yx . relocate and the stacks with a skipped transform (is_transformed=True), "
+    "plus a 4th (integer) irregular menu through every decorator of (b). Per case every decorator "
     "(to_array, to_grid, to_vector_yx, project_grid, transform, relocate_to_radial_minimum and the stacks "
     "to_array/to_grid . transform . relocate) x every program (scalar / (y,x)-pair returns, lists of 1..3, computed on "
-    "np.array(grid) or directly on the structure). non-trivial = the pairing is observable: >= 2 evaluated coordinates "
+    "np.array(grid) or directly on the structure); histories inside one case: after the parent grid was evaluated, the "
+    "grids parent*2.0, parent+c, -parent, parent.copy() edited in place and (1D) the parent itself after parent[k]=v are "
+    "evaluated through to_array / to_grid / to_vector_yx / project_grid and must be evaluated at THEIR OWN (projected) "
+    "coordinates (all variants x makers for Grid1D and Grid2DIrregular, one variant per coordinate kind for Grid2D). "
+    "non-trivial = the pairing is observable: >= 2 evaluated coordinates "
     "and (for masked inputs) at least one masked pixel; for ring cases at least one moved and one unchanged point"
 )
 ASSUMPTIONS = [
@@ -42,11 +50,18 @@ ASSUMPTIONS = [
     "project_grid on Grid2D: when two of the four centre-to-edge distances tie with different pixel scales, or "
     "distance/pixel_scale is within 1e-6 of an integer, either documented reading is accepted",
     "to_vector_yx on Grid1D is documented as unsupported and is not exercised",
+    "integer-dtype inputs: the statement is about VALUES (moved to exactly the minimum radius / unchanged / entry k = "
+    "f(coordinate k)); the dtype of what the function receives is not prescribed, and a library that converts integer "
+    "input to float on construction passes",
+    "derived grids: that structure arithmetic / copy / item assignment return the same structure type with the expected "
+    "values is C11's business; a variant for which it does not hold is skipped here",
 ]
 BOUNDS = {
     "quick": "2D masks with <= 9 cells (3187 masks, all shapes incl. 1xN/Nx1) x 6 geometries x 2 coordinate kinds; "
-    "irregular sets 3 menus x lengths 1..6 x 3 profiles; 1D masks of length <= 6 (120) x 6 geometries x 2 kinds; "
-    "rings 3 minima x 3 direction sets x 2 orders x 3 containers x 3 profiles",
+    "irregular sets 4 menus (one integer-dtype) x lengths 1..6 x 3 profiles; 1D masks of length <= 6 (120) x 6 geometries "
+    "x 2 kinds; rings 3 minima x 3 direction sets x 2 orders x 3 containers x 3 profiles; integer rings 3 minima x 2 menus "
+    "x 2 orders x 3 containers; derived-after-evaluated histories of depth 2 (evaluate parent, derive, evaluate) in every "
+    "grid case",
     "thorough": "2D masks with <= 12 cells (35943 masks) x 6 geometries x 2 coordinate kinds; irregular as quick; "
     "1D masks of length <= 9 x 6 geometries x 2 kinds; rings as quick plus a 4th (16-direction) set",
 }
@@ -96,7 +111,24 @@ def irregular_menu(seed, menu):
         return np.round(r.uniform(-3.0, 3.0, (6, 2)), 4)
     if menu == 1:
         return np.array([(1.0, 2.0), (3.0, -1.0), (1.0, 2.0), (0.5, 0.5), (3.0, -1.0), (1.0, 2.0)])
+    if menu == 3:  # INTEGER dtype (aa.Grid2DIrregular([(1, 0), (0, 2)]) keeps int64): both sides of the 2.5 minimum
+        return np.array([(1, 0), (0, 2), (3, -1), (-2, -2), (0, 0), (1, 0)], dtype=np.int64)
     return np.array([(0.0, 0.0), (0.0, 1.5), (-2.0, 0.0), (1.0, 1.0), (-1.0, -1.0), (2.5, -0.5)])
+
+
+def int_ring_points(seed, menu, order):
+    """Integer-dtype coordinates inside (r = 1, sqrt 2, 2, sqrt 5) and outside (r >= sqrt 8) the 2.5 minimum; no integer
+    point lies at r = 2.5, 0.3 or 1e-8, so there is no tie band."""
+    if menu == 0:
+        pts = [(1, 0), (0, 2), (2, 1), (-1, -2), (0, -1), (-2, 0), (1, -1), (3, 4), (0, 3), (-2, 2), (5, 0), (-3, -1), (2, 2), (0, -7)]
+    else:
+        r = dom.rng(seed, "c17-intring")
+        pts = [tuple(int(t) for t in p) for p in r.randint(-4, 5, (10, 2))]
+        pts += [(0, 0), (1, 1), (1, 1), (-3, 0), (0, 1), (2, -2)]  # the centre, a repeated point
+    pts = np.array(pts, dtype=np.int64)
+    if order == 1:
+        pts = pts[dom.rng(seed, "c17-intperm", menu).permutation(len(pts))]
+    return pts
 
 
 def ring_dirs(seed, dset):
@@ -388,9 +420,9 @@ def reloc_classes(C, rmin):
     return r, centre, tie, inside, outside
 
 
-def check_reloc(v, desc, got, C, rmin):
+def check_reloc(v, desc, got, C, rmin, suffix=""):
     """`got` = grid the function received, C = grid handed to the decorator (profile frame)."""
-    fm, fu = "relocate_to_radial_minimum:moved", "relocate_to_radial_minimum:unchanged"
+    fm, fu = "relocate_to_radial_minimum:moved" + suffix, "relocate_to_radial_minimum:unchanged" + suffix
     if got is None or got.shape != C.shape:
         v.ok(False, fm, "%s: received grid of shape %s for input %s" % (desc, None if got is None else got.shape, C.shape))
         return None
@@ -427,7 +459,7 @@ def cases(tier, seed):
     quick = tier == "quick"
     nprof = 3
     # (b) irregular sets - cheapest, first
-    for menu in range(3):
+    for menu in range(4):
         for n in range(1, 7):
             for pi in range(nprof):
                 yield ["irr", menu, n, pi, seed]
@@ -445,6 +477,12 @@ def cases(tier, seed):
                 for cont in ("nd", "irr", "g2d"):
                     for pi in range(nprof):
                         yield ["ring", ci, dset, order, cont, pi, seed]
+    # (d') integer-dtype coordinates through the relocation
+    for ci in range(3):
+        for menu in (0, 1):
+            for order in (0, 1):
+                for cont in ("nd", "irr", "g2d"):
+                    yield ["ringint", ci, menu, order, cont, seed]
     # (a) masked uniform grids
     for (h, w, bits) in dom.all_mask_cases(9 if quick else 12):
         for gi in range(6):
@@ -461,6 +499,8 @@ def run_case(case):
         run_g1d(k, v, *case[1:])
     elif kind == "ring":
         run_ring(k, v, *case[1:])
+    elif kind == "ringint":
+        run_ringint(k, v, *case[1:])
     elif kind == "g2d":
         run_g2d(k, v, *case[1:])
     else:
@@ -496,6 +536,55 @@ def run_makers(k, v, itype, grid, C_eval, mk_extra, types, desc0, tol, vector=Tr
                 check_seen_once(v, "%s:%s" % (dname, itype), desc, obj, C_eval, tol, {})
                 # the native-form (scatter) check does not depend on how the function computed its values
                 check_result(v, aa, dname, itype, prog, desc, out, prog_ref(prog, C_eval), want, mk_extra(dname, style == "np"), tol)
+
+
+DERIVED = ":derived-after-parent-evaluated"
+
+
+def run_derived(k, v, itype, dgrid, C_eval, plan, mk_extra, desc, ctol, tol):
+    """`dgrid` was derived (arithmetic / copy / in-place edit) from a grid that HAS ALREADY BEEN EVALUATED through the
+    decorators: it is evaluated at ITS OWN coordinates `C_eval` (nothing remembered from the parent's evaluation may
+    travel with it), entry k = f(own coordinate k)."""
+    obj = mk_prof(k, "VerifC17ProfMid", ((0.0, 0.0), 0.0))
+    for stack, dname, prog, want in plan:
+        d = "%s %s(%s)" % (desc, dname, prog)
+        out = call(obj, stack, prog, "np", dgrid)
+        if check_seen_once(v, "%s:%s%s" % (dname, itype, DERIVED), d, obj, C_eval, ctol, {}) is not None:
+            check_result(v, k.aa, dname, itype + DERIVED, prog, d, out, prog_ref(prog, C_eval), want, mk_extra(dname), tol)
+
+
+def derive_variants(aa, grid, C, want_type, which=("mul", "add", "neg", "copy")):
+    """(description, derived grid, its own coordinates) - derived AFTER the parent `grid` (coordinates C) was evaluated.
+    Variants whose arithmetic does not return the structure type with the expected values are not C17's business."""
+    out = []
+    c = 0.375
+    for key, what, fn, Cd in (
+        ("mul", "parent * 2.0", lambda: grid * 2.0, C * 2.0),
+        ("add", "parent + %g" % c, lambda: grid + c, C + c),
+        ("neg", "-parent", lambda: -grid, -C),
+    ):
+        if key not in which:
+            continue
+        d = fn()
+        if type(d) is want_type and dom.exact(arr(d), Cd):
+            out.append((what, d, Cd))
+    d = grid.copy() if "copy" in which else None
+    if type(d) is want_type and len(C) >= 1:
+        Cd = C.copy()
+        Cd[0] = -C[0] - 0.8125
+        d[0] = Cd[0]
+        if dom.exact(arr(d), Cd) and dom.exact(arr(grid), C):
+            out.append(("parent.copy() with [0] := %s" % Cd[0].tolist(), d, Cd))
+    return out
+
+
+def edit_parent(grid, C):
+    """In-place edit of the (already evaluated) parent itself; returns its new coordinates or None."""
+    kk = len(C) - 1
+    Cd = C.copy()
+    Cd[kk] = C[kk] * 0.5 + 1.625
+    grid[kk] = Cd[kk]
+    return Cd if dom.exact(arr(grid), Cd) else None
 
 
 # ---------------------------------------------------------------- (a) masked uniform grids
@@ -540,6 +629,15 @@ def run_g2d(k, v, h, w, bits, gi, seed):
 
         # exact: no arithmetic happens between the function and the container
         run_makers(k, v, "Grid2D", grid, C, mk_extra, (aa.Array2D, aa.Grid2D, aa.VectorYX2D), desc0, 0.0)
+        # grids derived from the (now evaluated) parent are evaluated at their own coordinates
+        # (one variant per coordinate kind here; all variants x all makers on the 1D and irregular grids)
+        if vname == "uniform":
+            which, plans = ("mul",), ((("A", "to_array", "s", aa.Array2D),),)
+        else:
+            which, plans = ("add", "copy"), ((("G", "to_grid", "p", aa.Grid2D),), (("V", "to_vector_yx", "p", aa.VectorYX2D),))
+        for q, (what, dgrid, Cd) in enumerate(derive_variants(aa, grid, C, aa.Grid2D, which)):
+            run_derived(k, v, "Grid2D", dgrid, Cd, plans[q % len(plans)], lambda dname, dgrid=dgrid, Cd=Cd: mk_extra(dname, True, dgrid, Cd),
+                        "%s -> %s" % (desc0, what), 0.0, 0.0)
 
         # ---- transform (user-supplied frame change) under the makers: entry k = f(T(coordinate k))
         for pi in (1, 2):
@@ -714,7 +812,9 @@ def run_irr(k, v, menu, n, pi, seed):
     C = arr(grid)
     v.nontrivial = n >= 2
     v.outcome = "irr:menu%d:n%d" % (menu, min(n, 3))
-    desc0 = "Grid2DIrregular[menu %d n=%d]" % (menu, n)
+    sfx = ":int-dtype" if pts.dtype.kind in "iu" else ""
+    itype = "Grid2DIrregular" + sfx
+    desc0 = "Grid2DIrregular[menu %d n=%d dtype=%s %s]" % (menu, n, pts.dtype, pts.tolist())
     v.ok(dom.exact(C, pts), "input-grid:Grid2DIrregular", "%s does not hold its coordinates" % desc0)
 
     def mk_extra(dname, full=True):
@@ -727,7 +827,21 @@ def run_irr(k, v, menu, n, pi, seed):
 
         return extra
 
-    run_makers(k, v, "Grid2DIrregular", grid, C, mk_extra, (aa.ArrayIrregular, aa.Grid2DIrregular, aa.VectorYX2DIrregular), desc0, 0.0)
+    run_makers(k, v, itype, grid, C, mk_extra, (aa.ArrayIrregular, aa.Grid2DIrregular, aa.VectorYX2DIrregular), desc0, 0.0)
+
+    # coordinate sets derived from the (now evaluated) parent are evaluated at their own coordinates
+    plan = (("A", "to_array", "s", aa.ArrayIrregular), ("G", "to_grid", "p", aa.Grid2DIrregular), ("V", "to_vector_yx", "p", aa.VectorYX2DIrregular))
+    if not sfx:
+        for what, dgrid, Cd in derive_variants(aa, grid, C, aa.Grid2DIrregular):
+            def mk_extra_d(dname, full=True, Cd=Cd):
+                def extra(out):
+                    if len(out) != n:
+                        return "result has %d entries for %d coordinates" % (len(out), n)
+                    if dname == "to_vector_yx" and not (type(out.grid) is aa.Grid2DIrregular and dom.exact(arr(out.grid), Cd)):
+                        return "vector field is not attached to the input coordinates"
+                    return None
+                return extra
+            run_derived(k, v, "Grid2DIrregular", dgrid, Cd, plan, mk_extra_d, "%s -> %s" % (desc0, what), 0.0, 0.0)
 
     # project_grid: an irregular grid is evaluated as it is (one entry per coordinate)
     for prof in (profs[pi], profs[3], profs[4]):
@@ -735,8 +849,8 @@ def run_irr(k, v, menu, n, pi, seed):
         for prog, want in (("s", aa.ArrayIrregular), ("p", aa.Grid2DIrregular)):
             desc = "%s project_grid(%s) prof=%s" % (desc0, prog, prof)
             out = call(obj, "P", prog, "np", grid)
-            check_seen_once(v, "project_grid:Grid2DIrregular", desc, obj, C, 0.0)
-            check_container(v, aa, "project_grid:Grid2DIrregular", desc, out, prog_ref(prog, C), want, mk_extra("project_grid"), 0.0)
+            check_seen_once(v, "project_grid:" + itype, desc, obj, C, 0.0)
+            check_container(v, aa, "project_grid:" + itype, desc, out, prog_ref(prog, C), want, mk_extra("project_grid"), 0.0)
 
     # transform stacks
     prof = profs[pi]
@@ -749,8 +863,8 @@ def run_irr(k, v, menu, n, pi, seed):
                                          ("VT", "to_vector_yx", "pL1", aa.VectorYX2DIrregular)):
             desc = "%s %s.transform(%s) prof=%s tstyle=%s" % (desc0, dname, prog, prof, tstyle)
             out = call(obj, stack, prog, "np", grid)
-            if check_transform_seen(v, "Grid2DIrregular", desc, obj, C, TC, 1e-12 * sc):
-                check_result(v, aa, dname, "Grid2DIrregular", prog, desc, out, prog_ref(prog, TC), want, mk_extra(dname), 2e-9 * scale_of(TC))
+            if check_transform_seen(v, itype, desc, obj, C, TC, 1e-12 * sc):
+                check_result(v, aa, dname, itype, prog, desc, out, prog_ref(prog, TC), want, mk_extra(dname), 2e-9 * scale_of(TC))
     obj = mk_prof(k, "VerifC17ProfMid", prof, "wna")
     out = call(obj, "T", "nest", "np", grid)
     check_nested(v, "%s transform(nested) prof=%s" % (desc0, prof), obj, out, C, TC, 1e-12 * sc)
@@ -762,13 +876,20 @@ def run_irr(k, v, menu, n, pi, seed):
         desc = "%s relocate(%s)" % (desc0, cls)
         call(obj, "R", "id", "np", grid)
         fs = f_seen(obj)
-        check_reloc(v, desc, fs[0][1] if len(fs) == 1 else None, C, rmin)
+        check_reloc(v, desc, fs[0][1] if len(fs) == 1 else None, C, rmin, sfx)
         desc = "%s to_array.transform.relocate(%s) prof=%s" % (desc0, cls, prof)
         out = call(obj, "ATR", "s", "np", grid)
         fs = f_seen(obj)
-        res = check_reloc(v, desc, fs[0][1] if len(fs) == 1 else None, TC, rmin)
+        res = check_reloc(v, desc, fs[0][1] if len(fs) == 1 else None, TC, rmin, sfx)
         if res is not None:
-            check_stack_output(v, aa, "to_array", "Grid2DIrregular", "s", desc, out, res[0], res[1], aa.ArrayIrregular, mk_extra("to_array"))
+            check_stack_output(v, aa, "to_array", itype, "s", desc, out, res[0], res[1], aa.ArrayIrregular, mk_extra("to_array"))
+        # a grid flagged as already transformed skips the frame change: the relocation acts on the coordinates as given
+        desc = "%s to_array.transform.relocate(%s) is_transformed=True" % (desc0, cls)
+        out = call(obj, "ATR", "s", "np", grid, is_transformed=True)
+        fs = f_seen(obj)
+        res = check_reloc(v, desc, fs[0][1] if len(fs) == 1 else None, C, rmin, sfx)
+        if res is not None:
+            check_stack_output(v, aa, "to_array", itype, "s", desc, out, res[0], res[1], aa.ArrayIrregular, mk_extra("to_array"))
 
 
 # ---------------------------------------------------------------- (c) 1D grids
@@ -875,6 +996,28 @@ def run_g1d(k, v, L, bits, gi, kind, seed):
             if res is not None:
                 check_stack_output(v, aa, "to_array", "Grid1D", "s", desc, out, res[0], res[1], aa.Array1D, extra_arr)
 
+    # ---- 1D grids derived from the (now evaluated) parent, and the parent itself after an in-place edit, are
+    # evaluated along THEIR OWN projected line
+    plan = (("A", "to_array", "s", aa.Array1D), ("G", "to_grid", "p", aa.Grid2D))
+    variants = derive_variants(aa, grid, X, aa.Grid1D)
+    Xe = edit_parent(grid, X)
+    if Xe is not None:
+        variants.append(("the parent itself after [%d] := %r" % (n - 1, float(Xe[n - 1])), grid, Xe))
+    for what, dgrid, Xd in variants:
+        scd = scale_of(Xd)
+        Pd = np.stack([np.zeros(n), Xd], -1)
+        desc = "%s -> %s" % (desc0, what)
+        run_derived(k, v, "Grid1D", dgrid, Pd, plan, mk_extra, desc, 1e-12 * scd, 2e-9 * scd)
+        prof = profs[1]
+        _, A = prof_centre_angle(prof)
+        obj = mk_prof(k, "VerifC17ProfMid", prof)
+        ey, ex = rot_cw(np.zeros(n), Xd, A)
+        out = call(obj, "P", "s", "np", dgrid)
+        got = check_seen_once(v, "project_grid:Grid1D" + DERIVED, desc + " project_grid prof=%s" % (prof,), obj, np.stack([ey, ex], -1), 1e-12 * scd)
+        if got is not None:
+            ok = type(out) is aa.Array1D and near(arr(out), prog_ref("s", got), 0.0)
+            v.ok(ok, "project_grid:Grid1D" + DERIVED, lambda: "%s project_grid: result %s %s is not the Array1D of f along the projected line" % (desc, type(out).__name__, arr(out).tolist()))
+
 
 # ---------------------------------------------------------------- (d) relocation rings
 
@@ -888,6 +1031,70 @@ def ring_points(seed, ci, dset, order):
         perm = dom.rng(seed, "c17-perm", ci, dset).permutation(len(pts))
         pts = pts[perm]
     return pts
+
+
+def run_ringint(k, v, ci, menu, order, cont, seed):
+    """Integer-dtype coordinates (np.array([[1, 0], [0, 2]]), aa.Grid2DIrregular([(1, 0), (0, 2)]) and a Grid2D built from a
+    slim integer array all keep int64): coordinates inside the minimum reach the function at EXACTLY the minimum radius
+    (not at its truncation to the input's dtype), all others bitwise unchanged."""
+    aa = k.aa
+    cls = CLS[ci]
+    rmin = RMIN[cls]
+    Pi = int_ring_points(seed, menu, order)
+    Pf = Pi.astype(float)
+    n = len(Pi)
+    m = ring_mask(n)
+    sfx = ":int-dtype"
+
+    def wrap():
+        if cont == "nd":
+            return Pi.copy(), np.ndarray
+        if cont == "irr":
+            return aa.Grid2DIrregular(values=Pi.copy()), aa.Grid2DIrregular
+        mask = aa.Mask2D(mask=m.copy(), pixel_scales=(0.7, 0.7), origin=(0.1, -0.2))
+        return aa.Grid2D(values=Pi.copy(), mask=mask), aa.Grid2D
+
+    desc0 = "ring-int[%s menu=%d order=%d %s coordinates=%s]" % (cls, menu, order, cont, Pi.tolist())
+    r, cen, tie, inside, outside = reloc_classes(Pf, rmin)
+    grid, gtype = wrap()
+    in_kind = np.asarray(grid).dtype.kind
+    obj = mk_prof(k, cls, ((0.0, 0.0), 0.0), "wna")
+    out = call(obj, "R", "id", "np", grid)
+    fs = f_seen(obj)
+    res = check_reloc(v, desc0 + " relocate", fs[0][1] if len(fs) == 1 else None, Pf, rmin, sfx)
+    if res is not None:
+        v.ok(type(out) is gtype and dom.exact(np.array(out, dtype=float), fs[0][1]), "relocate_to_radial_minimum:container" + sfx,
+             lambda: "%s: function received %s for a %s input" % (desc0, type(out).__name__, gtype.__name__))
+        v.ok(dom.exact(np.asarray(grid), Pi) and np.asarray(grid).dtype.kind == in_kind, "relocate_to_radial_minimum:input-mutated" + sfx,
+             "%s: caller's grid was modified" % desc0)
+    # under the makers / a skipped transform the integer coordinates reach the relocation as they are
+    stacks = [("TR", None, "id", None)]
+    if cont != "nd":
+        want = {("irr", "A"): aa.ArrayIrregular, ("irr", "G"): aa.Grid2DIrregular, ("irr", "V"): aa.VectorYX2DIrregular,
+                ("g2d", "A"): aa.Array2D, ("g2d", "G"): aa.Grid2D, ("g2d", "V"): aa.VectorYX2D}
+        stacks += [("AR", "to_array", "s", want[(cont, "A")]), ("GR", "to_grid", "p", want[(cont, "G")]),
+                   ("VR", "to_vector_yx", "p", want[(cont, "V")]), ("ATR", "to_array", "s", want[(cont, "A")])]
+    itype = {"nd": "ndarray", "irr": "Grid2DIrregular", "g2d": "Grid2D"}[cont] + sfx
+    for stack, dname, prog, wt in stacks:
+        grid, gtype = wrap()
+        kw = {"is_transformed": True} if "T" in stack else {}
+        desc = "%s %s(%s)%s" % (desc0, ".".join({"A": "to_array", "G": "to_grid", "V": "to_vector_yx", "T": "transform", "R": "relocate"}[c] for c in stack),
+                                prog, " is_transformed=True" if kw else "")
+        out = call(obj, stack, prog, "np", grid, **kw)
+        fs = f_seen(obj)
+        res = check_reloc(v, desc, fs[0][1] if len(fs) == 1 else None, Pf, rmin, sfx)
+        if res is None or dname is None:
+            continue
+        extra = None
+        if cont == "g2d":
+            def extra(o):
+                if not same_mask2d(o.mask, m, (0.7, 0.7), (0.1, -0.2)):
+                    return "result is not on the input mask"
+                return None
+        check_stack_output(v, aa, dname, itype, prog, desc, out, res[0], res[1], wt, extra)
+    moved, unmoved = int(inside.sum()), int(outside.sum())
+    v.nontrivial = moved >= 1 and unmoved >= 1
+    v.outcome = "ringint:%s:%s:moved%d:unmoved%d" % (cls, cont, min(moved, 1), min(unmoved, 1))
 
 
 def ring_mask(n):
